@@ -68,6 +68,10 @@ class Builder:
         flags = ["-fsigned-char" if cfg[0] == "s" else "-funsigned-char"]
         if "d" not in cfg:
             flags.append("-DNDEBUG")
+        if "b" in cfg:
+            # big-endian memory model: must be chosen at compile time (cbmc --big-endian
+            # has no effect on a goto binary, probed)
+            flags.append("--big-endian")
         return flags
 
     def real_tu(self, cfg, tu):
@@ -233,7 +237,7 @@ class Builder:
 
     def harness_obj(self, cfg, src, defines, tag):
         out = os.path.join(self.cfg_dir(cfg), "h_" + tag + ".o")
-        flags = ["-fsigned-char" if cfg[0] == "s" else "-funsigned-char"]
+        flags = ["-fsigned-char" if cfg[0] == "s" else "-funsigned-char"] + (["--big-endian"] if "b" in cfg else [])
         cmd = ["goto-cc", "-c", "-I" + REPO + "/include", "-iquote", REPO + "/src",
                "-I" + VERIF + "/spec", "-I" + VERIF + "/harness", "-I" + VERIF + "/stubs",
                "-I" + VERIF + "/golden", "-I" + self.workdir, "-I" + self.cfg_dir(cfg),
